@@ -15,7 +15,7 @@ RULE = ('Hypothesis draws (wavelet by family, J in 1..4, H,W = generated multipl
         'A,H,V,D), and the metamorphic relation T(roll x) = roll T(x). Non-trivial = L>=4 or J>=2. '
         'Distinct = configuration without seeds.')
 ASSUMPTIONS = ['pywt.swt2 (periodic boundary, no normalisation, trim_approx=False) is the reference',
-               'tolerance 1e-9*max(1,gain*max|x|) float64, 64*eps32 float32']
+               'tolerance 1e-11*max(1,gain*max|x|) float64, 64*eps32 float32']
 STRATA = {'thorough': 'every wavelet (106) x J (1..4)', 'quick': ''}
 LABEL_FLOORS = {'J>=2': 0.4}
 
@@ -139,7 +139,7 @@ def _run_case(case):
         want = np.concatenate([t.reshape(t.shape[0], -1) for t in ref_swt2(B, refw, J)], axis=1)
         got = flat(out)
         g = max(1.0, float(np.abs(want).sum(0).max()))
-        tol = (64 * core.EPS32 if f32 else 1e-9) * g
+        tol = (64 * core.EPS32 if f32 else core.TOL64) * g
         okc, err = core.close(got, want, tol)
         r.metric('operator_abs_err_' + case['dtype'], err)
         if not okc:
@@ -159,7 +159,7 @@ def _run_case(case):
     got = flat(out)
     if g == 1.0:
         g = max(1.0, float(np.sum(np.abs(pywt.Wavelet(w).dec_lo))) ** (2 * J))
-    tol = (64 * core.EPS32 if f32 else 1e-9) * max(g * core.maxabs(x), 1e-300)
+    tol = (64 * core.EPS32 if f32 else core.TOL64) * max(g * core.maxabs(x), 1e-300)
     okc, err = core.close(got, want, tol)
     r.metric('dense_rel_err_' + case['dtype'], err / max(g * core.maxabs(x), 1e-300))
     if not okc:
